@@ -23,16 +23,28 @@ namespace smt
         while (sat->decision_level() > bt_level)
             sat->pop();
 
+#ifdef ORATIO_VERIF
+        if (sat->verif_hook)
+            sat->verif_hook(3, cnfl);
+#endif
         if (sat->root_level())
             return sat->new_clause(cnfl) && sat->propagate();
 
         // we analyze the conflict and backjump..
+#ifdef ORATIO_VERIF
+        sat->verif_in_backtrack = true; // the conflict has already been reported..
+#endif
         analyze_and_backjump();
         return sat->propagate();
     }
 
     void theory::analyze_and_backjump() noexcept
     {
+#ifdef ORATIO_VERIF
+        if (sat->verif_hook && !sat->verif_in_backtrack)
+            sat->verif_hook(3, cnfl);
+        sat->verif_in_backtrack = false;
+#endif
         // we create a conflict clause for the analysis..
         clause cnfl_cl(*sat, std::move(cnfl));
 
@@ -48,5 +60,14 @@ namespace smt
         // .. and record the no-good..
         sat->record(no_good);
     }
+#ifdef ORATIO_VERIF
+    SMT_EXPORT void theory::record(std::vector<lit> cls) noexcept
+    {
+        if (sat->verif_kind == 0)
+            sat->verif_kind = 2;
+        sat->record(std::move(cls));
+    }
+#else
     SMT_EXPORT void theory::record(std::vector<lit> cls) noexcept { sat->record(std::move(cls)); }
+#endif
 } // namespace smt
